@@ -241,6 +241,8 @@ class PathResult:
         self.facts = interp.facts
 
 
+TRACK_CANCEL = False  # set by checks that judge signs as floating point computes them
+
 TRUESET = {"<": {"-"}, "<=": {"-", "0"}, ">": {"+"}, ">=": {"0", "+"}, "==": {"0"}, "!=": {"-", "+"}}
 ALLSIGNS = {"-", "0", "+"}
 FLIP = {"-": "+", "+": "-", "0": "0"}
@@ -334,6 +336,7 @@ class Interp:
         self.facts = facts.clone() if facts is not None else Facts()
         self.stubs = stubs or {}
         self.events = []  # (kind, where, detail)
+        self.fterms = {}  # id(env) -> {name: (operation tree, the value it described)}
         self.path = []  # (description, bool)
         self.loops = []  # LoopSummary
         self.calls = []  # (dotted, args, kwargs, where)
@@ -546,6 +549,117 @@ class Interp:
         finally:
             self.cur_mod, self.cur_fn, self.cur_imports = saved
 
+    # ---- the expression as floating point evaluates it
+    def _fterms_of_assign(self, s, env):
+        out = []
+        if len(s.targets) != 1:
+            return out
+        t, v = s.targets[0], s.value
+        pairs = []
+        if isinstance(t, ast.Name):
+            pairs = [(t, v)]
+        elif isinstance(t, (ast.Tuple, ast.List)) and isinstance(v, (ast.Tuple, ast.List)) and len(t.elts) == len(v.elts):
+            pairs = [(a, b) for a, b in zip(t.elts, v.elts) if isinstance(a, ast.Name)]
+        for a, b in pairs:
+            if isinstance(b, (ast.BinOp, ast.UnaryOp)):
+                try:
+                    out.append((a.id, self.fterm(b, env)))
+                except AnalysisError:
+                    pass
+        return out
+
+    def fterm(self, node, env):
+        """operation tree of an arithmetic expression with the names that were themselves defined by arithmetic opened and the
+        operands of + and * ordered: two expressions with the same tree round alike, two that are merely equal in exact
+        arithmetic (halo * nx / xmx and halo / (xmx / nx)) need not"""
+        frame = self.fterms.get(id(env), {})
+        if isinstance(node, ast.BinOp):
+            l, r = self.fterm(node.left, env), self.fterm(node.right, env)
+            op = type(node.op).__name__
+            if op in ("Add", "Mult") and repr(r) < repr(l):
+                l, r = r, l
+            return (op, l, r)
+        if isinstance(node, ast.UnaryOp) and isinstance(node.op, ast.USub):
+            return ("Neg", self.fterm(node.operand, env))
+        if isinstance(node, ast.UnaryOp) and isinstance(node.op, ast.UAdd):
+            return self.fterm(node.operand, env)
+        if isinstance(node, ast.Constant) and isinstance(node.value, (int, float)) and not isinstance(node.value, bool):
+            return ("const", repr(float(node.value)))
+        if isinstance(node, ast.Name):
+            ent = frame.get(node.id)
+            if ent is not None and ent[1] is env.get(node.id):
+                return ent[0]
+            if node.id in env:
+                return ("leaf", env[node.id])
+            return ("name", node.id)
+        if isinstance(node, ast.Call) and dotted_name(node.func) in ("float", "np.float64", "numpy.float64") and len(node.args) == 1 and not node.keywords:
+            return self.fterm(node.args[0], env)
+        if isinstance(node, ast.Subscript) and isinstance(node.value, ast.Name) and node.value.id in env and isinstance(env[node.value.id], Arr):
+            return ("leaf", env[node.value.id])  # an element (or selection of elements) of that array
+        return ("source", ast.unparse(node))
+
+    @staticmethod
+    def fterm_at_infinity(t, is_inf):
+        """class of the value of an operation tree when the leaves selected by is_inf are +-infinity and every other leaf is
+        finite: 'fin' | 'inf' | 'nan' (definitely not a number: inf/inf, inf-inf) | '?'"""
+        k = t[0] if isinstance(t, tuple) else None
+        if k == "leaf":
+            return "inf" if is_inf(t[1]) else "fin"
+        if k in ("const", "name"):
+            return "fin"
+        if k == "Neg":
+            return Interp.fterm_at_infinity(t[1], is_inf)
+        if k in ("Add", "Sub", "Mult", "Div", "Pow"):
+            a, b = Interp.fterm_at_infinity(t[1], is_inf), Interp.fterm_at_infinity(t[2], is_inf)
+            if "nan" in (a, b):
+                return "nan"
+            if "?" in (a, b):
+                return "?"
+            if k in ("Add", "Sub"):
+                if a == "inf" and b == "inf":
+                    return "?"  # inf - inf is NaN, inf + inf is inf: depends on the signs
+                return "inf" if "inf" in (a, b) else "fin"
+            if k == "Mult":
+                return "inf" if "inf" in (a, b) else "fin"  # (0 * inf is left aside: only definite verdicts are used)
+            if k == "Div":
+                if a == "inf" and b == "inf":
+                    return "nan"
+                if b == "inf":
+                    return "fin"
+                return a
+            if k == "Pow":
+                if a == "inf":
+                    e = t[2]
+                    neg = (e[0] == "Neg" and e[1][0] == "const") or (e[0] == "const" and float(e[1]) < 0)
+                    pos = e[0] == "const" and float(e[1]) > 0
+                    return "fin" if neg else "inf" if pos else "?"
+                return "fin" if b == "fin" else "?"
+        return "?"
+
+    @staticmethod
+    def fterm_equal(a, b):
+        if isinstance(a, tuple) and isinstance(b, tuple):
+            if len(a) != len(b) or a[0] != b[0]:
+                return False
+            if a[0] == "leaf":
+                x, y = a[1], b[1]
+                return x is y or (isinstance(x, Expr) and isinstance(y, Expr) and x.eq(y))
+            return all(Interp.fterm_equal(x, y) for x, y in zip(a[1:], b[1:]))
+        return a == b
+
+    @staticmethod
+    def fterm_str(a):
+        if not isinstance(a, tuple):
+            return str(a)
+        if a[0] == "leaf":
+            return repr(a[1])[:40]
+        if a[0] in ("const", "name", "source"):
+            return str(a[1])
+        if a[0] == "Neg":
+            return "-(%s)" % Interp.fterm_str(a[1])
+        sym = {"Add": "+", "Sub": "-", "Mult": "*", "Div": "/", "Pow": "**", "FloorDiv": "//", "Mod": "%"}.get(a[0], a[0])
+        return "(%s %s %s)" % (Interp.fterm_str(a[1]), sym, Interp.fterm_str(a[2]))
+
     # ---- statements
     def exec_block(self, stmts, env):
         for s in stmts:
@@ -557,9 +671,22 @@ class Interp:
                 return
             self.eval(s.value, env)
         elif isinstance(s, ast.Assign):
+            fts = self._fterms_of_assign(s, env)
+            if TRACK_CANCEL and isinstance(s.value, ast.BinOp):
+                try:
+                    self.event("arith", s, self.fterm(s.value, env))  # the operation tree as floating point evaluates it
+                except AnalysisError:
+                    pass
             v = self.eval(s.value, env)
             for t in s.targets:
                 self.assign(t, v, env)
+            frame = self.fterms.setdefault(id(env), {})
+            for t in s.targets:
+                for n in ast.walk(t):
+                    if isinstance(n, ast.Name):
+                        frame.pop(n.id, None)
+            for name, ft in fts:
+                frame[name] = (ft, env.get(name))
         elif isinstance(s, ast.AnnAssign):
             if s.value is not None:
                 self.assign(s.target, self.eval(s.value, env), env)
@@ -1790,6 +1917,43 @@ class Interp:
 
     # ---- arithmetic
     def binop(self, op, a, b, node):
+        r = self._binop(op, a, b, node)
+        if TRACK_CANCEL and isinstance(op, (ast.Sub, ast.Add)):
+            self._note_cancellation(op, a, b, r, node)
+        return r
+
+    def _note_cancellation(self, op, a, b, r, node):
+        """a - b of two quantities of the same sign whose difference has a definite sign in exact arithmetic: in floating
+        point each operand carries its own rounding error, so the computed difference can be zero or have the other sign"""
+        va, vb, vr = (x.val if isinstance(x, Arr) else x for x in (a, b, r))
+        if not (isinstance(va, Expr) and isinstance(vb, Expr) and isinstance(vr, Expr)):
+            return
+        if va.as_const() is not None or vb.as_const() is not None or vr.as_const() is not None:
+            return
+        if isinstance(op, ast.Add):
+            vb = -vb
+        # signs relative to the first operand, so that a common factor of unknown sign (z, u*) does not matter:
+        # b/a >= 0 (same sign) and (a - b)/a of definite sign (the exact difference never changes side)
+        try:
+            q = (vb / va).simp()
+            rel = (vr / va).simp()
+            if len(rel.n) > 1 or len(q.n) > 1:
+                q, rel = (vb / va).expand().simp(), (vr / va).expand().simp()  # definitions opened: 1 - v^2/(u^2+v^2) is u^2/(u^2+v^2)
+        except Exception:
+            return
+        def sgn(e):
+            s0 = self.facts.possible(e)
+            if len(s0) > 2 or s0 == {"-", "+"}:
+                nu, de = e.num_den()
+                sn, sd = alg.manifest_sign(nu), alg.manifest_sign(de)
+                if sn <= {"+", "0"} and sd <= {"+", "0"}:  # a denominator is not zero where the value exists
+                    return {"+", "0"} if "0" in sn else {"+"}
+            return s0
+        sq, sr = sgn(q), sgn(rel)
+        if sq <= {"+", "0"} and "+" in sq and (sr <= {"+", "0"} or sr <= {"-", "0"}):
+            self.event("float-cancel", node, "%s: the difference of two quantities of the same sign keeps its sign only in exact arithmetic (each operand is rounded on its own)" % ast.unparse(node)[:60])
+
+    def _binop(self, op, a, b, node):
         if a is BOT or b is BOT:
             return BOT
         if isinstance(a, Unknown):
